@@ -378,6 +378,29 @@ def concrete(x, lo, hi):
     return lo
 
 
+def pick_schedule(a, inst, L, nt):
+    """concretise the preemption schedule of an instance: P ordered positions (the first within the instance's chunk lo..hi), each
+    with a relative target in -1..-nt.  Returns None when this region of the schedule space is empty or covered elsewhere"""
+    P = inst["P"]
+    pre = ([a.p0] + list(a.pos))[:P]
+    for i in range(1, P):
+        if pre[i] <= pre[i - 1]:
+            return None  # ordered positions only (an unordered tuple is the same schedule)
+    out = []
+    for i in range(P):
+        lo = inst.get("lo", 0) if i == 0 else 0
+        hi = min(inst.get("hi", 10 ** 6) if i == 0 else 10 ** 6, L + 2)
+        if lo > hi or pre[i] > hi or pre[i] < lo:
+            return None  # beyond the end of the run: no preemption there (covered by the schedules with fewer preemptions)
+        out.append((concrete(pre[i], lo, hi), -1 - (concrete(a.tgt[i], 0, nt - 1) if nt > 1 else 0)))
+    return out
+
+
+def position_chunks(L, width):
+    """split the first preemption position 0..L into instance-sized chunks"""
+    return [(lo, min(lo + width - 1, L) if lo + width <= L else 10 ** 6) for lo in range(0, L + 1, width)]
+
+
 def untraced():
     """the gated run needs no symbolic tracing (the schedule was concretised before): suspend CrossHair's tracer for its duration"""
     try:
